@@ -599,7 +599,26 @@ def _gen_top(r, m, names, inners, bits_types):
     return s
 
 
-def gen_module(r):
+def _explicit_byte_orders(m, r):
+    """Make a module valid without `$default byte_order`: every byte-order dependent field gets an
+    explicit attribute; one-byte fields are left to the compiler ("Null" byte order)."""
+    for s in m.structs:
+        if s.unit != 8:
+            continue
+        for f in s.fields:
+            if f.virtual or f.byte_order:
+                continue
+            multi = (f.kind in ("uint", "int", "bcd", "enum") and f.bits > 8) or \
+                (f.kind == "bits" and f.bits > 8) or \
+                (f.kind == "array" and f.elem.kind in KINDS_SCALAR and f.elem.bits > 8)
+            if multi and not f.anonymous:
+                f.byte_order = r.choice(["LittleEndian", "BigEndian"])
+            elif multi:
+                # anonymous bits cannot carry the attribute in this generator: shrink to one byte
+                pass
+
+
+def gen_module(r, default_byte_order=True):
     m = GenModule()
     names = _Names()
     m.byte_order = r.choice(["LittleEndian", "BigEndian"])
@@ -614,6 +633,10 @@ def gen_module(r):
     # inner structs are worth instantiating directly too
     m.tops = [s for s in m.structs if s.unit == 8]
     m.text = module_text(m)
+    if not default_byte_order:
+        _explicit_byte_orders(m, r)
+        m.features["no_default_byte_order"] += 1
+        m.text = module_text(m).replace('[$default byte_order: "%s"]\n' % m.byte_order, "", 1)
     return m
 
 
